@@ -9,7 +9,7 @@ from ..core import astutil as A
 from ..core.cfg import Cond
 from ..core.index import AnalysisError, FuncInfo
 from ..selftest import M
-from .common import (TTF_OUTLINE, T, attr_stores, calls_named, check_forwarding, check_plumbing, conds, entails, every_origin, facts,
+from .common import (may_conds, TTF_OUTLINE, T, attr_stores, calls_named, check_forwarding, check_plumbing, conds, entails, every_origin, facts,
                      key, need, reached_under, subscript_stores, where)
 from .rounding import is_otround
 
@@ -132,7 +132,7 @@ def r021(prog, chk):
     ok_inc = isinstance(inc, ast.Lambda) and T(inc.body) == f"len({inc.args.args[0].arg})"
     dn = cfg.node_of(dsite)
     every = not any(cfg.exists_path(cfg.entry, [r], avoid=[dn]) for r in cfg.return_nodes())
-    chk.ob("R02.1", f"{m.short}|mixed glyphs always decomposed", ok_inc and every and not conds(prog, m, dsite), where(m, dsite),
+    chk.ob("R02.1", f"{m.short}|mixed glyphs always decomposed", ok_inc and every and not may_conds(prog, m, dsite), where(m, dsite),
            detail="DecomposeComponentsFilter(include=lambda g: len(g)) appended on every path",
            message="glyphs mixing contours and components are no longer always decomposed for TrueType (invalid glyf data)")
     table = {
